@@ -55,7 +55,9 @@ def default_layout(encoding):
 
 
 def fm_track(track, side, sectors, order=None, layout=None, track_bytes=3125, head_id=None, fieldmap=None,
-             size_code=1):
+             size_code=1, quirks=None):
+    """quirks: {sector: {"size_code": n, "cyl": c, "head": h, "mark": 0xF8, "data": bytes (recorded instead of the
+    sector's data), "crc_xor": int (xor-ed into the data CRC), "dup": True (sector recorded twice)}}"""
     """sectors: list of 256-byte blobs indexed by logical sector number."""
     lay = dict(default_layout("FM"))
     if layout:
@@ -75,12 +77,15 @@ def fm_track(track, side, sectors, order=None, layout=None, track_bytes=3125, he
     for _ in range(lay["gap1"]):
         put(0xFF)
     head = side if head_id is None else head_id
+    quirks = quirks or {}
+    order = [s_ for s_ in order for _ in range(2 if quirks.get(s_, {}).get("dup") else 1)]
     for sec in order:
+        q = quirks.get(sec, {})
         for _ in range(lay["sync"]):
             put(0x00)
         idpos = len(cells)
         put(0xFE, 0xC7)
-        idf = bytes([track, head, sec, size_code])
+        idf = bytes([q.get("cyl", track) & 0xFF, q.get("head", head) & 0xFF, sec, q.get("size_code", size_code)])
         crc = crc16_ccitt(bytes([0xFE]) + idf)
         for b in idf:
             put(b)
@@ -91,9 +96,14 @@ def fm_track(track, side, sectors, order=None, layout=None, track_bytes=3125, he
         for _ in range(lay["sync"]):
             put(0x00)
         dpos = len(cells)
-        put(0xFB, 0xC7)
+        mark = q.get("mark", 0xFB)
+        put(mark, 0xC7)
         data = sectors[sec]
-        crc = crc16_ccitt(bytes([0xFB]) + data)
+        if "size_code" in q:
+            want_len = 128 << q["size_code"]
+            data = (data * (want_len // max(1, len(data)) + 1))[:want_len]
+        crc = crc16_ccitt(bytes([mark]) + data) ^ q.get("crc_xor", 0)
+        data = q.get("data", data)
         for b in data:
             put(b)
         put(crc >> 8)
@@ -110,7 +120,7 @@ def fm_track(track, side, sectors, order=None, layout=None, track_bytes=3125, he
 
 
 def mfm_track(track, side, sectors, order=None, layout=None, track_bytes=6250, head_id=None, fieldmap=None,
-              size_code=1):
+              size_code=1, quirks=None):
     lay = dict(default_layout("MFM"))
     if layout:
         lay.update(layout)
@@ -131,13 +141,16 @@ def mfm_track(track, side, sectors, order=None, layout=None, track_bytes=6250, h
         for _ in range(lay["gap4a"]):
             w.byte(0x4E)
     head = side if head_id is None else head_id
+    quirks = quirks or {}
+    order = [s_ for s_ in order for _ in range(2 if quirks.get(s_, {}).get("dup") else 1)]
     for sec in order:
+        q = quirks.get(sec, {})
         for _ in range(lay["sync"]):
             w.byte(0x00)
         idpos = len(w.cells)
         for _ in range(3):
             w.raw16(0x4489, 1)      # A1 with missing clock
-        idf = bytes([0xFE, track, head, sec, size_code])
+        idf = bytes([0xFE, q.get("cyl", track) & 0xFF, q.get("head", head) & 0xFF, sec, q.get("size_code", size_code)])
         crc = crc16_ccitt(b"\xA1\xA1\xA1" + idf)
         w.bytes(idf)
         w.byte(crc >> 8)
@@ -151,8 +164,13 @@ def mfm_track(track, side, sectors, order=None, layout=None, track_bytes=6250, h
         for _ in range(3):
             w.raw16(0x4489, 1)
         data = sectors[sec]
-        crc = crc16_ccitt(b"\xA1\xA1\xA1\xFB" + data)
-        w.byte(0xFB)
+        mark = q.get("mark", 0xFB)
+        if "size_code" in q:
+            want_len = 128 << q["size_code"]
+            data = (data * (want_len // max(1, len(data)) + 1))[:want_len]
+        crc = crc16_ccitt(b"\xA1\xA1\xA1" + bytes([mark]) + data) ^ q.get("crc_xor", 0)
+        data = q.get("data", data)
+        w.byte(mark)
         w.bytes(data)
         w.byte(crc >> 8)
         w.byte(crc & 0xFF)
@@ -291,7 +309,7 @@ def build_hfe(tracks_cells, nsides, encoding, version=1, v3ops=None, bitrate=250
 
 
 def hfe_from_sides(sides, ntracks, spt, encoding, version=1, layout=None, order_fn=None, v3ops=None,
-                   track_bytes=None, head_id_fn=None):
+                   track_bytes=None, head_id_fn=None, quirks_fn=None):
     """sides: list of surface images (bytes).  Encodes every track."""
     tb = track_bytes or (3125 if encoding == "FM" else 6250)
     enc = fm_track if encoding == "FM" else mfm_track
@@ -302,7 +320,8 @@ def hfe_from_sides(sides, ntracks, spt, encoding, version=1, layout=None, order_
             secs = [img[(t * spt + s) * SECTOR:(t * spt + s + 1) * SECTOR] for s in range(spt)]
             order = order_fn(t, sd) if order_fn else None
             hid = head_id_fn(t, sd) if head_id_fn else None
-            per.append(enc(t, sd, secs, order=order, layout=layout, track_bytes=tb, head_id=hid))
+            per.append(enc(t, sd, secs, order=order, layout=layout, track_bytes=tb, head_id=hid,
+                           quirks=quirks_fn(t, sd) if quirks_fn else None))
         tracks.append(per)
     return build_hfe(tracks, len(sides), encoding, version=version, v3ops=v3ops)
 
@@ -329,13 +348,14 @@ def build_hxcmfm(tracks_cells, nsides, rpm=300, bitrate=250):
     return hdr + bytes(recs) + bytes(body)
 
 
-def hxcmfm_from_sides(sides, ntracks, spt, layout=None, order_fn=None, track_bytes=6250):
+def hxcmfm_from_sides(sides, ntracks, spt, layout=None, order_fn=None, track_bytes=6250, quirks_fn=None):
     tracks = []
     for t in range(ntracks):
         per = []
         for sd, img in enumerate(sides):
             secs = [img[(t * spt + s) * SECTOR:(t * spt + s + 1) * SECTOR] for s in range(spt)]
             order = order_fn(t, sd) if order_fn else None
-            per.append(mfm_track(t, sd, secs, order=order, layout=layout, track_bytes=track_bytes))
+            per.append(mfm_track(t, sd, secs, order=order, layout=layout, track_bytes=track_bytes,
+                                 quirks=quirks_fn(t, sd) if quirks_fn else None))
         tracks.append(per)
     return build_hxcmfm(tracks, len(sides))
